@@ -957,6 +957,19 @@ fn run_solution_post_process(r: &Req) -> String {
     let mut v = vars_of(r);
     let info = info_of(r);
     let mut sol = DefaultSolution::<f64>::new(n, mfull);
+    if r.has("stale") {
+        // the solution object of a previous solve: every field must be overwritten
+        let t = r.f("stale");
+        sol.obj_val = t;
+        sol.obj_val_dual = -t;
+        sol.r_prim = t;
+        sol.r_dual = t;
+        sol.iterations = 77;
+        sol.status = SolverStatus::Solved;
+        sol.x.iter_mut().for_each(|v| *v = t);
+        sol.s.iter_mut().for_each(|v| *v = t);
+        sol.z.iter_mut().for_each(|v| *v = t);
+    }
     sol.post_process(&data, &mut v, &info, &st);
     let l = Line::out()
         .u("status", status_to_u(sol.status))
@@ -1331,6 +1344,9 @@ pub fn gen_solution_post_process(s: &mut Session) {
         l = l.bs("keep", &keep).f("infbound", INFBOUND);
         s.count("solution.post_process:reduced");
     }
+    if s.rng.bool(0.7) {
+        l = l.f("stale", s.rng.uniform(-5.0, 5.0));
+    }
     s.submit(l.done());
 }
 
@@ -1396,9 +1412,9 @@ fn bits_eq(a: &[f64], b: &[f64]) -> bool {
     a.len() == b.len() && a.iter().zip(b).all(|(x, y)| x.to_bits() == y.to_bits() || (x.is_nan() && y.is_nan()))
 }
 
-pub fn solve_problem(p: &Prob, st: &Sets) -> (SolveOut, DefaultSolver<f64>, Vec<observer::Event>) {
+/// run `solve()` on an existing solver object (observer on) and collect the report
+pub fn solve_once(solver: &mut DefaultSolver<f64>) -> (SolveOut, Vec<observer::Event>) {
     observer::start();
-    let mut solver = DefaultSolver::new(&p.P, &p.q, &p.A, &p.b, &p.cones, st.to_settings());
     solver.solve();
     let ev = observer::take();
     let passes: Vec<&observer::IterSnapshot> = ev
@@ -1441,34 +1457,66 @@ pub fn solve_problem(p: &Prob, st: &Sets) -> (SolveOut, DefaultSolver<f64>, Vec<
         nkkt,
         rolled_back,
     };
+    (out, ev)
+}
+
+pub fn solve_problem(p: &Prob, st: &Sets) -> (SolveOut, DefaultSolver<f64>, Vec<observer::Event>) {
+    let mut solver = DefaultSolver::new(&p.P, &p.q, &p.A, &p.b, &p.cones, st.to_settings());
+    let (out, ev) = solve_once(&mut solver);
     (out, solver, ev)
+}
+
+fn render_solve(o: &SolveOut, sfx: &str) -> String {
+    let k = |n: &str| format!("{}{}", n, sfx);
+    Line::out()
+        .u(&k("status"), status_to_u(o.status))
+        .fs(&k("sx"), &o.x)
+        .fs(&k("ss"), &o.s)
+        .fs(&k("sz"), &o.z)
+        .f(&k("obj_val"), o.obj_val)
+        .f(&k("obj_val_dual"), o.obj_val_dual)
+        .f(&k("r_prim"), o.r_prim)
+        .f(&k("r_dual"), o.r_dual)
+        .u(&k("iterations"), o.iterations)
+        .u(&k("info_iterations"), o.info_iterations)
+        .u(&k("info_status"), status_to_u(o.info_status))
+        .fs(&k("info"), &o.info)
+        .f(&k("c"), o.c)
+        .f(&k("tau"), o.tau)
+        .f(&k("kappa"), o.kappa)
+        .u(&k("snap"), o.snap)
+        .u(&k("npass"), o.npass)
+        .u(&k("nkkt"), o.nkkt)
+        .b(&k("rolled_back"), o.rolled_back)
+        .done()
 }
 
 fn run_solve(r: &Req) -> String {
     let p = parse_prob(r);
     let st = Sets::parse(r);
     let (o, _solver, _ev) = solve_problem(&p, &st);
-    Line::out()
-        .u("status", status_to_u(o.status))
-        .fs("sx", &o.x)
-        .fs("ss", &o.s)
-        .fs("sz", &o.z)
-        .f("obj_val", o.obj_val)
-        .f("obj_val_dual", o.obj_val_dual)
-        .f("r_prim", o.r_prim)
-        .f("r_dual", o.r_dual)
-        .u("iterations", o.iterations)
-        .u("info_iterations", o.info_iterations)
-        .u("info_status", status_to_u(o.info_status))
-        .fs("info", &o.info)
-        .f("c", o.c)
-        .f("tau", o.tau)
-        .f("kappa", o.kappa)
-        .u("snap", o.snap)
-        .u("npass", o.npass)
-        .u("nkkt", o.nkkt)
-        .b("rolled_back", o.rolled_back)
-        .done()
+    render_solve(&o, "")
+}
+
+/// a history on ONE solver object: solve, then for k = 1..steps: `update_q(q_k)`,
+/// `update_b(b_k)`, solve again.  One report per solve (keys suffixed `_k`).
+fn run_resolve(r: &Req) -> String {
+    let p = parse_prob(r);
+    let st = Sets::parse(r);
+    let steps = r.u("steps");
+    let mut solver = DefaultSolver::new(&p.P, &p.q, &p.A, &p.b, &p.cones, st.to_settings());
+    let (o, _) = solve_once(&mut solver);
+    let mut out = render_solve(&o, "_0");
+    for k in 1..=steps {
+        let q = r.fs(&format!("q_{}", k));
+        let b = r.fs(&format!("b_{}", k));
+        let okq = solver.update_q(&q).is_ok();
+        let okb = solver.update_b(&b).is_ok();
+        let (o, _) = solve_once(&mut solver);
+        out.push_str(&format!(" upd_{}={} ", k, (okq && okb) as usize));
+        out.push_str(&render_solve(&o, &format!("_{}", k)));
+    }
+    out
 }
 
 /// Everything the oracles need, recomputed from the user's data and the returned point.
@@ -1566,8 +1614,9 @@ pub fn user_eval(p: &Prob, presolve: bool, x: &[f64], s: &[f64], z: &[f64]) -> U
 }
 
 const SLACK: f64 = 1.0 + 1e-9;
-/// entries below ~1e-154 vanish when the solver squares them inside a 2-norm
-const UNDERFLOW: f64 = 1e-150;
+/// entries below ~1e-154 (in the solver's scaled coordinates, i.e. up to a factor c/τ/d/e away
+/// from user space) vanish when the solver squares them inside a 2-norm
+const UNDERFLOW: f64 = 1e-140;
 
 /// the documented optimality test of the returned point with tolerances `t`
 /// (gap_abs, gap_rel, feas), each comparison relaxed by its rounding allowance
@@ -1608,7 +1657,19 @@ struct SolveResp {
     o: Req,
 }
 fn parse_solve(out: &str) -> Option<SolveResp> {
-    let o = Req::parse(&format!("o {}", out))?;
+    parse_solve_sfx(out, "")
+}
+/// the report of solve number `sfx` of a history, with the suffix stripped from the keys
+fn parse_solve_sfx(out: &str, sfx: &str) -> Option<SolveResp> {
+    let all = Req::parse(&format!("o {}", out))?;
+    let mut o = Req { chan: "o".into(), kv: Default::default() };
+    for (k, v) in all.kv.iter() {
+        if sfx.is_empty() {
+            o.kv.insert(k.clone(), v.clone());
+        } else if let Some(base) = k.strip_suffix(sfx) {
+            o.kv.insert(base.to_string(), v.clone());
+        }
+    }
     if !o.has("status") {
         return None;
     }
@@ -1774,10 +1835,10 @@ pub fn check_c03(p: &Prob, st: &Sets, r: &SolveResp) -> Result<(), String> {
         // reports failure, not a rounding-level disagreement
         return Ok(());
     }
-    if !((rp * dp - u.rp).abs() <= u.rp_allow + 1e-9 * u.rp + UNDERFLOW) {
+    if !((rp * dp - u.rp).abs() <= u.rp_allow + 1e-9 * u.rp + UNDERFLOW * (1.0 + dp)) {
         return Err(format!("{}: r_prim = {:e} but |Ax+s-b|/max(1,|b|inf+|x|+|s|) = {:e} (allowance {:e})", name, rp, u.rp / dp, u.rp_allow / dp));
     }
-    if !((rd * dd - u.rd).abs() <= u.rd_allow + 1e-9 * u.rd + UNDERFLOW) {
+    if !((rd * dd - u.rd).abs() <= u.rd_allow + 1e-9 * u.rd + UNDERFLOW * (1.0 + dd)) {
         return Err(format!("{}: r_dual = {:e} but |Px+A'z+q|/max(1,|q|inf+|x|+|z|) = {:e} (allowance {:e})", name, rd, u.rd / dd, u.rd_allow / dd));
     }
     if r.status == AlmostSolved {
@@ -1785,6 +1846,22 @@ pub fn check_c03(p: &Prob, st: &Sets, r: &SolveResp) -> Result<(), String> {
     }
     if o.u("snap") == 99 {
         return Err(format!("{}: the returned point is not the tau-normalisation of any recorded iterate", name));
+    }
+    Ok(())
+}
+
+fn check_report(which: &str, p: &Prob, st: &Sets, resp: &SolveResp) -> Result<(), String> {
+    if which.contains("c01") {
+        check_c01(p, st, resp)?;
+    }
+    if which.contains("c02") {
+        check_c02(p, st, resp)?;
+    }
+    if which.contains("c03") {
+        check_c03(p, st, resp)?;
+        if matches!(resp.status, SolverStatus::AlmostPrimalInfeasible | SolverStatus::AlmostDualInfeasible) {
+            check_c02(p, st, resp).map_err(|e| format!("Almost* reported although the reduced certificate test fails: {}", e))?;
+        }
     }
     Ok(())
 }
@@ -1797,18 +1874,28 @@ fn oracle_solve(r: &Req, out: &str) -> Result<(), String> {
     let p = parse_prob(r);
     let st = Sets::parse(r);
     let resp = parse_solve(out).ok_or("unparsable solve response")?;
-    let which = r.str("check");
-    if which.contains("c01") {
-        check_c01(&p, &st, &resp)?;
+    check_report(r.str("check"), &p, &st, &resp)
+}
+
+/// every solve of a history is judged against the data that was current for it
+fn oracle_resolve(r: &Req, out: &str) -> Result<(), String> {
+    if out.starts_with("panic") {
+        return Ok(());
     }
-    if which.contains("c02") {
-        check_c02(&p, &st, &resp)?;
-    }
-    if which.contains("c03") {
-        check_c03(&p, &st, &resp)?;
-        if is_infeasible_status(resp.status) && matches!(resp.status, SolverStatus::AlmostPrimalInfeasible | SolverStatus::AlmostDualInfeasible) {
-            check_c02(&p, &st, &resp).map_err(|e| format!("Almost* reported although the reduced certificate test fails: {}", e))?;
+    let mut p = parse_prob(r);
+    let st = Sets::parse(r);
+    let steps = r.u("steps");
+    let all = Req::parse(&format!("o {}", out)).ok_or("unparsable")?;
+    for k in 0..=steps {
+        if k > 0 {
+            if all.u(&format!("upd_{}", k)) != 1 {
+                return Err(format!("step {}: update_q / update_b was refused although no presolve / decomposition is active", k));
+            }
+            p.q = r.fs(&format!("q_{}", k));
+            p.b = r.fs(&format!("b_{}", k));
         }
+        let resp = parse_solve_sfx(out, &format!("_{}", k)).ok_or("unparsable history response")?;
+        check_report(r.str("check"), &p, &st, &resp).map_err(|e| format!("solve #{} of the history: {}", k, e))?;
     }
     Ok(())
 }
@@ -1817,9 +1904,14 @@ pub fn solve_channel() -> Channel {
     Channel { name: "solve", tol: Tol::Exact, run: run_solve, oracle: Some(oracle_solve), modelled: false,
         rust_fn: "DefaultSolver::new + solve (public API, observer on)", lean: "(oracle only: C01/C02/C03 stated on the user's data)" }
 }
+pub fn resolve_channel() -> Channel {
+    Channel { name: "resolve", tol: Tol::Exact, run: run_resolve, oracle: Some(oracle_resolve), modelled: false,
+        rust_fn: "DefaultSolver::new, then (update_q, update_b, solve)* on the same object", lean: "(oracle only: C01/C02/C03 after every solve of a history)" }
+}
 pub fn all_channels() -> Vec<Channel> {
     let mut v = component_channels();
     v.push(solve_channel());
+    v.push(resolve_channel());
     v
 }
 
@@ -2197,4 +2289,92 @@ pub fn submit_live_components(s: &mut Session, p: &Prob, st: &Sets) {
     s.submit(l.done());
     s.count("live-components");
     let _ = &mut solver;
+}
+
+// =====================================================================================
+// part 4c: wide-magnitude objectives and re-solve histories
+// =====================================================================================
+
+/// planted feasible QP (P ≠ 0, q ≠ 0, active constraints) whose whole objective is scaled by
+/// γ = 10^U(−8,8) relative to the constraints, optionally with row/column scalings over many
+/// decades: the optimum x is unchanged, the multipliers scale with γ
+pub fn plant_cost_scaled(s: &mut Session, exotic: bool) -> Prob {
+    let ill = s.rng.bool(0.4);
+    let mut p = loop {
+        let p = plant(s, Plant::Feasible, exotic, ill, false);
+        if p.P.nzval.iter().any(|&v| v != 0.0) && p.q.iter().any(|&v| v != 0.0) && p.A.m > 0 {
+            break p;
+        }
+    };
+    let g = 10f64.powf(s.rng.uniform(-8.0, 8.0));
+    for v in p.P.nzval.iter_mut() {
+        *v *= g;
+    }
+    for v in p.q.iter_mut() {
+        *v *= g;
+    }
+    p
+}
+
+/// a history of (q, b) pairs on one (P, A, cones): feasible and infeasible data alternate
+pub struct History {
+    pub base: Prob,
+    pub steps: Vec<(Vec<f64>, Vec<f64>)>,
+    pub kinds: String,
+}
+
+pub fn plant_history(s: &mut Session, exotic: bool) -> History {
+    let primal = s.rng.bool(0.5);
+    let bad = plant(s, if primal { Plant::PrimalInfeasible } else { Plant::DualInfeasible }, exotic, false, false);
+    let (n, m) = (bad.A.n, bad.A.m);
+    // a feasible, bounded (q, b) for the same P, A: b = A x1 + s1, q = −P x1 − A' z1
+    let x1: Vec<f64> = (0..n).map(|_| s.rng.normal()).collect();
+    let s1 = interior_all(s, &bad.cones, false);
+    let z1 = interior_all(s, &bad.cones, true);
+    let pt = user_triu(&bad.P);
+    let (ax, _) = a_mul(&bad.A, &x1);
+    let (px, _) = sym_mul(&pt, &x1);
+    let (atz, _) = at_mul(&bad.A, &z1);
+    let bf: Vec<f64> = (0..m).map(|i| ax[i] + s1[i]).collect();
+    let qf: Vec<f64> = (0..n).map(|j| -px[j] - atz[j]).collect();
+    // infeasible data differs from the feasible one only in the vector that carries the
+    // infeasibility (b for primal, q for dual infeasibility)
+    let (qi, bi) = if primal { (qf.clone(), bad.b.clone()) } else { (bad.q.clone(), bf.clone()) };
+    let len = 2 + s.rng.below(3);
+    let mut seq = vec![];
+    let mut kinds = String::new();
+    let mut feas = s.rng.bool(0.6);
+    for _ in 0..len {
+        if feas {
+            // a fresh feasible right-hand side each time
+            let sc = s.rng.uniform(0.5, 2.0);
+            seq.push((qf.iter().map(|v| v * sc).collect::<Vec<f64>>(), bf.clone()));
+            kinds.push('F');
+        } else {
+            seq.push((qi.clone(), bi.clone()));
+            kinds.push(if primal { 'P' } else { 'D' });
+        }
+        feas = if s.rng.bool(0.8) { !feas } else { feas };
+    }
+    let mut base = bad.clone();
+    base.q = seq[0].0.clone();
+    base.b = seq[0].1.clone();
+    History { base, steps: seq[1..].to_vec(), kinds }
+}
+
+pub fn submit_history(s: &mut Session, h: &History, st: &Sets, check: &str) -> String {
+    let mut st = st.clone();
+    st.presolve = false; // data updates are refused on a presolved problem
+    let mut l = st.put(put_prob(Line::new("resolve"), &h.base)).s("check", check).u("steps", h.steps.len());
+    for (k, (q, b)) in h.steps.iter().enumerate() {
+        l = l.fs(&format!("q_{}", k + 1), q).fs(&format!("b_{}", k + 1), b);
+    }
+    let out = s.submit(l.done());
+    s.count(&format!("history:{}", h.kinds));
+    for k in 0..=h.steps.len() {
+        if let Some(r) = parse_solve_sfx(&out, &format!("_{}", k)) {
+            s.count(&format!("history-status:{:?}", r.status));
+        }
+    }
+    out
 }
